@@ -19,6 +19,7 @@ import (
 	"fmt"
 	"os"
 	"path/filepath"
+	"runtime/debug"
 	"sort"
 	"testing"
 
@@ -27,7 +28,14 @@ import (
 	"pgregory.net/rapid"
 )
 
-func TestMain(m *testing.M) { pbt.RunMain(m) }
+func TestMain(m *testing.M) {
+	// the WAL allocates 256 KiB buffers per opened segment; with the default GC target the
+	// collector would run every few cuts
+	if os.Getenv("C13_GOGC") == "" {
+		debug.SetGCPercent(800)
+	}
+	pbt.RunMain(m)
+}
 
 const maxPayload = 70 << 10
 
@@ -90,6 +98,7 @@ type Case struct {
 	Cuts        []uint32 `json:"cuts"` // drawn truncation offsets (mod size+1) used when the file is not enumerated completely
 	ExhLimit    int      `json:"exh"`  // enumerate every offset when the cut segment is at most this long
 	Tail        Rec      `json:"tail"` // record appended after recovery
+	Budget      int      `json:"budget,omitempty"` // work budget of the cut phase in MiB of buffers allocated/read (default 600)
 	// Excl lists the open known findings the generator steered away from (see FINDINGS.md):
 	// "hdr-tail": cuts 1..3 bytes into a length header skip the append-after-recovery step.
 	Excl []string `json:"excl,omitempty"`
@@ -360,11 +369,6 @@ func run(c Case, r *pbt.Rec) error {
 
 	// ---- phase 3: cut the segment that was being written at byte offsets
 	cutSeg := active
-	path := segPath(dir, cutSeg)
-	pristine, err := os.ReadFile(path)
-	if err != nil {
-		return fmt.Errorf("harness: read cut segment: %v", err)
-	}
 	var inSeg []placed
 	nBefore := 0 // records in lower segments
 	for _, p := range all {
@@ -374,42 +378,40 @@ func run(c Case, r *pbt.Rec) error {
 			nBefore++
 		}
 	}
-	size := int64(len(pristine))
-	if n := len(inSeg); (n == 0 && size != 0) || (n > 0 && inSeg[n-1].end != size) {
-		return pbt.Failf("layout", "segment %d is %d bytes long but its records end at %v", cutSeg, size, inSeg)
+	ph := &cutPhase{c: c, r: r, cfg: cfg, dir: dir, cutSeg: cutSeg, highest: maxID(), before: all[:nBefore], inSeg: inSeg}
+	if err := ph.prepare(); err != nil {
+		return err
 	}
-	orig := map[string]int64{}
-	var totalBytes int64
-	for _, f := range listWal(dir) {
-		st, _ := os.Stat(f)
-		orig[f] = st.Size()
-		totalBytes += st.Size()
-	}
-	highest := maxID()
+	size := ph.size
+	nfiles := int64(len(ph.orig))
 
-	// which offsets
-	var offs []int64
-	exhaustive := size <= int64(c.ExhLimit) && (size+1)*(totalBytes+4096) <= 96<<20
-	if exhaustive {
-		for o := int64(0); o <= size; o++ {
-			offs = append(offs, o)
-		}
-		r.Label("cuts:exhaustive")
-	} else {
+	// Work estimate per cut in allocated+read bytes: VerifyDir uses a fixed 256 KiB reader per
+	// segment, every Open allocates a writer and replays everything, plus two explicit replays.
+	bufEff := int64(c.BufSize)
+	if bufEff <= 0 {
+		bufEff = 256 << 10
+	}
+	cost := func(nf, total int64) int64 { return nf*(256<<10) + 2*bufEff + 4*nf*bufEff + 5*total + 300<<10 }
+	budget := int64(c.Budget) << 20
+	if budget <= 0 {
+		budget = 600 << 20
+	}
+
+	structural := func() []int64 {
 		seen := map[int64]bool{}
+		var offs []int64
 		add := func(o int64) {
 			if o >= 0 && o <= size && !seen[o] {
 				seen[o] = true
 				offs = append(offs, o)
 			}
 		}
-		// structural offsets of the last 6 and first 2 records, then drawn ones
 		st := inSeg
-		if len(st) > 8 {
-			st = append(append([]placed(nil), inSeg[:2]...), inSeg[len(inSeg)-6:]...)
+		if len(st) > 4 {
+			st = append(append([]placed(nil), inSeg[:1]...), inSeg[len(inSeg)-3:]...)
 		}
 		for _, p := range st {
-			for d := int64(0); d <= 6; d++ {
+			for d := int64(0); d <= 5; d++ {
 				add(p.off + d)
 			}
 			for d := int64(1); d <= 5; d++ {
@@ -420,22 +422,152 @@ func run(c Case, r *pbt.Rec) error {
 		for _, cu := range c.Cuts {
 			add(int64(cu) % (size + 1))
 		}
-		sort.Slice(offs, func(i, j int) bool { return offs[i] < offs[j] })
-		r.Label("cuts:sampled")
+		return offs
 	}
-	r.LabelN("cut-offsets", len(offs))
-
-	tailRec := wal.Record{Type: wal.RecordType(c.Tail.T % 4), Payload: c.Tail.payload()}
-	restore := func() {
-		for _, f := range listWal(dir) {
-			if _, ok := orig[f]; !ok {
-				_ = os.Remove(f)
+	all0 := func() []int64 {
+		offs := make([]int64, 0, size+1)
+		for o := int64(0); o <= size; o++ {
+			offs = append(offs, o)
+		}
+		return offs
+	}
+	limit := func(offs []int64, per int64) []int64 {
+		if n := budget / 2 / per; int64(len(offs)) > n {
+			if n < 6 {
+				n = 6
+			}
+			if int64(len(offs)) > n {
+				offs = offs[:n]
 			}
 		}
+		return offs
 	}
-	nt := false
+
+	if nfiles == 1 {
+		per := cost(1, size)
+		if size <= int64(c.ExhLimit) && (size+1)*per <= budget {
+			r.Label("cuts:exhaustive")
+			if err := ph.sweep(all0(), false); err != nil {
+				return err
+			}
+		} else {
+			r.Label("cuts:sampled")
+			if err := ph.sweep(limit(structural(), per), false); err != nil {
+				return err
+			}
+		}
+	} else {
+		// (a) the whole directory with structural + drawn offsets
+		if err := ph.sweep(limit(structural(), cost(nfiles, ph.total)), false); err != nil {
+			return err
+		}
+		if err := ph.othersUntouched(); err != nil {
+			return err
+		}
+		// (b) every offset, with the older segments removed the way the engine removes them
+		// after their memtable has been flushed (Manager.RemoveSegment)
+		per := cost(1, size)
+		if size <= int64(c.ExhLimit) && (size+1)*per <= budget {
+			r.Label("cuts:exhaustive")
+			r.Label("cuts:exhaustive-after-removing-older-segments")
+			if err := ph.dropOthers(); err != nil {
+				return err
+			}
+			if err := ph.sweep(all0(), true); err != nil {
+				return err
+			}
+		} else {
+			r.Label("cuts:sampled")
+		}
+	}
+	if ph.nt {
+		r.NT()
+	}
+	return nil
+}
+
+// cutPhase holds the state of the truncation sweep over one closed WAL directory.
+type cutPhase struct {
+	c        Case
+	r        *pbt.Rec
+	cfg      wal.Config
+	dir      string
+	cutSeg   uint32
+	highest  uint32
+	before   []placed // records in lower segments (still present unless dropOthers was called)
+	inSeg    []placed
+	path     string
+	pristine []byte
+	size     int64
+	orig     map[string]int64
+	total    int64
+	nt       bool
+}
+
+func (ph *cutPhase) prepare() error {
+	ph.path = segPath(ph.dir, ph.cutSeg)
+	b, err := os.ReadFile(ph.path)
+	if err != nil {
+		return fmt.Errorf("harness: read cut segment: %v", err)
+	}
+	ph.pristine, ph.size = b, int64(len(b))
+	if n := len(ph.inSeg); (n == 0 && ph.size != 0) || (n > 0 && ph.inSeg[n-1].end != ph.size) {
+		return pbt.Failf("layout", "segment %d is %d bytes long but its %d records do not end there", ph.cutSeg, ph.size, n)
+	}
+	ph.orig = map[string]int64{}
+	for _, f := range listWal(ph.dir) {
+		st, err := os.Stat(f)
+		if err != nil {
+			return fmt.Errorf("harness: %v", err)
+		}
+		ph.orig[f] = st.Size()
+		ph.total += st.Size()
+	}
+	return nil
+}
+
+func (ph *cutPhase) dropOthers() error {
+	for f := range ph.orig {
+		if f != ph.path {
+			if err := os.Remove(f); err != nil {
+				return fmt.Errorf("harness: %v", err)
+			}
+			delete(ph.orig, f)
+		}
+	}
+	ph.before = nil
+	ph.highest = ph.cutSeg
+	ph.total = ph.size
+	return nil
+}
+
+func (ph *cutPhase) othersUntouched() error {
+	for f, sz := range ph.orig {
+		if f == ph.path {
+			continue
+		}
+		st, err := os.Stat(f)
+		if err != nil || st.Size() != sz {
+			return pbt.Failf("other-segment-changed", "recovery changed %s (was %d bytes, now %v %v)", filepath.Base(f), sz, st, err)
+		}
+	}
+	return nil
+}
+
+func (ph *cutPhase) restore() {
+	for _, f := range listWal(ph.dir) {
+		if _, ok := ph.orig[f]; !ok {
+			_ = os.Remove(f)
+		}
+	}
+}
+
+func (ph *cutPhase) sweep(offs []int64, lean bool) error {
+	r, c := ph.r, ph.c
+	inSeg := ph.inSeg
+	tailRec := wal.Record{Type: wal.RecordType(c.Tail.T % 4), Payload: c.Tail.payload()}
+	r.LabelN("cut-offsets", len(offs))
 	for _, o := range offs {
-		// classify
 		k := 0 // complete records of the cut segment
 		for k < len(inSeg) && inSeg[k].end <= o {
 			k++
@@ -456,33 +588,36 @@ func run(c Case, r *pbt.Rec) error {
 			default:
 				class = "in-payload"
 			}
-			if nBefore+k > 0 {
-				nt = true
+			if len(ph.before)+k > 0 {
+				ph.nt = true
 			}
 		} else if o == 0 {
 			class = "at-0"
 		}
 		r.Label("cut:" + class)
 
-		if err := os.WriteFile(path, pristine[:o], 0o644); err != nil {
+		if err := os.WriteFile(ph.path, ph.pristine[:o], 0o644); err != nil {
 			return fmt.Errorf("harness: write cut: %v", err)
 		}
-		want := append([]placed(nil), all[:nBefore]...)
+		want := append([]placed(nil), ph.before...)
 		want = append(want, inSeg[:k]...)
-		where := fmt.Sprintf("segment %d (%d bytes, %d records) cut at %d [%s]", cutSeg, size, len(inSeg), o, class)
+		where := fmt.Sprintf("segment %d (%d bytes, %d records) cut at %d [%s]", ph.cutSeg, ph.size, len(inSeg), o, class)
+		if lean {
+			where += " (older segments removed)"
+		}
 
-		if err := wal.VerifyDir(dir, nil); err != nil {
+		if err := wal.VerifyDir(ph.dir, nil); err != nil {
 			return pbt.Failf("verifydir-error", "%s: VerifyDir: %v", where, err)
 		}
-		m, err := wal.Open(cfg)
+		m, err := wal.Open(ph.cfg)
 		if err != nil {
 			return pbt.Failf("open-after-cut", "%s: Open: %v", where, err)
 		}
-		if cutSeg != highest {
+		if ph.cutSeg != ph.highest {
 			// lsm.recovery: resume the newest non-empty segment
-			if err := m.SwitchSegment(cutSeg, false); err != nil {
+			if err := m.SwitchSegment(ph.cutSeg, false); err != nil {
 				_ = m.Close()
-				return pbt.Failf("switch-error", "%s: SwitchSegment(%d,false): %v", where, cutSeg, err)
+				return pbt.Failf("switch-error", "%s: SwitchSegment(%d,false): %v", where, ph.cutSeg, err)
 			}
 		}
 		have, err := collect(m)
@@ -497,7 +632,7 @@ func run(c Case, r *pbt.Rec) error {
 		if inHdr && c.excl("hdr-tail") {
 			r.Excluded(1)
 			_ = m.Close()
-			restore()
+			ph.restore()
 			continue
 		}
 		if _, err := m.AppendRecords(tailRec); err != nil {
@@ -507,7 +642,7 @@ func run(c Case, r *pbt.Rec) error {
 		if err := m.Close(); err != nil {
 			return pbt.Failf("close-error", "%s: Close: %v", where, err)
 		}
-		m, err = wal.Open(cfg)
+		m, err = wal.Open(ph.cfg)
 		if err != nil {
 			return pbt.Failf("open-after-append", "%s: Open after appending one record: %v", where, err)
 		}
@@ -516,24 +651,14 @@ func run(c Case, r *pbt.Rec) error {
 		if err != nil {
 			return pbt.Failf("replay-after-append-error", "%s: Replay after appending one record to the recovered log: %v", where, err)
 		}
-		want = append(want, placed{typ: tailRec.Type, pay: tailRec.Payload, seg: cutSeg, off: -1})
+		want = append(want, placed{typ: tailRec.Type, pay: tailRec.Payload, seg: ph.cutSeg, off: -1})
 		if d := diff(want, have); d != "" {
 			return pbt.Failf("replay-after-append", "%s, then one record appended: %s", where, d)
 		}
-		restore()
-	}
-	// the other segments must not have been touched by recovery
-	for f, sz := range orig {
-		if f == path {
-			continue
+		if err := ph.othersUntouched(); err != nil {
+			return err
 		}
-		st, err := os.Stat(f)
-		if err != nil || st.Size() != sz {
-			return pbt.Failf("other-segment-changed", "recovery changed %s (size %d, now %v %v)", filepath.Base(f), sz, st, err)
-		}
-	}
-	if nt {
-		r.NT()
+		ph.restore()
 	}
 	return nil
 }
@@ -584,13 +709,14 @@ func genRec(t *rapid.T, room int64) Rec {
 func gen(t *rapid.T) Case {
 	c := Case{
 		SegSize:     rapid.SampledFrom([]int64{1, 1, 65536, 65536, 70000, 131072, 0}).Draw(t, "seg"),
-		BufSize:     rapid.SampledFrom([]int{0, 16, 100, 4096, 65536}).Draw(t, "buf"),
+		BufSize:     rapid.SampledFrom([]int{0, 16, 16, 100, 4096, 4096, 4096, 65536}).Draw(t, "buf"),
 		SyncOnWrite: rapid.IntRange(0, 3).Draw(t, "sow") == 0,
 		Live:        rapid.Bool().Draw(t, "live"),
 		ExhLimit:    8 << 10,
 	}
 	if pbt.Tier() == "thorough" {
 		c.ExhLimit = 48 << 10
+		c.Budget = 6000
 	}
 	if pbt.Open("C13-F1") {
 		c.Excl = append(c.Excl, "hdr-tail")
@@ -645,8 +771,20 @@ func gen(t *rapid.T) Case {
 			c.Ops = append(c.Ops, Op{K: "J", ID: maxID})
 			used = 0
 		case k == 16:
-			c.Ops = append(c.Ops, Op{K: "B"}) // run decides whether the precondition holds
-			used = 0                          // unknown; "fit" sizes are then only approximate
+			// lsm.recovery shape: empty newer segment(s) exist (optionally after a restart), the
+			// newest non-empty one is resumed.  run decides whether the precondition holds.
+			if rapid.Bool().Draw(t, "viaRotate") {
+				c.Ops = append(c.Ops, Op{K: "R"})
+				maxID++
+			} else {
+				maxID += uint32(rapid.IntRange(1, 3).Draw(t, "gapB"))
+				c.Ops = append(c.Ops, Op{K: "J", ID: maxID})
+			}
+			if rapid.Bool().Draw(t, "restart") {
+				c.Ops = append(c.Ops, Op{K: "O"})
+			}
+			c.Ops = append(c.Ops, Op{K: "B"})
+			used = 0 // unknown; "fit" sizes are then only approximate
 		case k == 17:
 			c.Ops = append(c.Ops, Op{K: "S"})
 		default:
@@ -700,11 +838,11 @@ func enumerate() []Case {
 			emit([]Rec{a, b})
 		}
 	}
-	// three records: types vary on the last one only (sizes all combinations)
+	// three records: all size combinations, fixed types 0,3,2
 	for _, a := range sizes {
 		for _, b := range sizes {
-			for _, cc := range recs {
-				emit([]Rec{{T: 0, N: a, Fill: 2, Seed: 1}, {T: 3, N: b, Fill: 2, Seed: 2}, cc})
+			for _, cc := range sizes {
+				emit([]Rec{{T: 0, N: a, Fill: 2, Seed: 1}, {T: 3, N: b, Fill: 3, Seed: 2}, {T: 2, N: cc, Fill: 0}})
 			}
 		}
 	}
@@ -713,7 +851,7 @@ func enumerate() []Case {
 
 func TestCheck(t *testing.T) {
 	s := &pbt.Suite{ID: "C13", Level: "exploration",
-		Rule: "gen: rapid-drawn WAL operation sequences (AppendRecords batches of 1-4 typed records, untyped Append, Rotate, SwitchSegment to a new id, SwitchSegment back to the newest non-empty segment, Sync, Close+Open; record types 0..3; payload 0..70KiB incl. sizes that exactly fill the segment; SegmentSize in {1(clamped to 64KiB),64KiB,70000,128KiB,default}; BufferSize in {default,16,100,4096,64KiB}). Oracle: Replay/ReplaySegment of the intact log == appended (type,payload) list; then the segment being written is cut at EVERY offset 0..size when it is <= ExhLimit bytes (8KiB quick / 48KiB thorough) and at structural (each byte of the length header, type byte, CRC bytes of first/last records) + drawn offsets otherwise; after each cut VerifyDir+Open+Replay == records completely before the cut, and after appending one record + Close+Open, Replay == that prefix + the new record. static: all sequences of <=2 records over types{0..3} x sizes{0,1,5} (+ a family of 3-record sequences), with and without a Rotate, every cut offset. Non-trivial = the case contains a cut strictly inside a record (length header, type/payload or CRC) with >=1 complete record before it; distinct by case content.",
+		Rule: "gen: rapid-drawn WAL operation sequences (AppendRecords batches of 1-4 typed records, untyped Append, Rotate, SwitchSegment to a new id, SwitchSegment back to the newest non-empty segment, Sync, Close+Open; record types 0..3; payload 0..70KiB incl. sizes that exactly fill the segment; SegmentSize in {1(clamped to 64KiB),64KiB,70000,128KiB,default}; BufferSize in {default,16,100,4096,64KiB}). Oracle: Replay/ReplaySegment of the intact log == appended (type,payload) list; then the segment being written is cut at EVERY offset 0..size when it is <= ExhLimit bytes (8KiB quick / 48KiB thorough) and at structural (each byte of the length header, type byte, CRC bytes of first/last records) + drawn offsets otherwise; after each cut VerifyDir+Open+Replay == records completely before the cut, and after appending one record + Close+Open, Replay == that prefix + the new record. static: all sequences of <=2 records over types{0..3} x sizes{0,1,5} and all 3-record sequences over sizes{0,1,5} with types 0,3,2, each without and with a Rotate before any record but the first, every cut offset. Non-trivial = the case contains a cut strictly inside a record (length header, type/payload or CRC) with >=1 complete record before it; distinct by case content.",
 		Assumptions: []string{
 			"SwitchSegment is used the way its callers use it: (id,true) only with a new id above every existing one (lsm.NewMemtable), (id,false) only to resume the newest non-empty segment while every higher segment is empty (lsm.recovery)",
 			"the torn segment is the one that was active when writing stopped; earlier segments are intact",
@@ -721,7 +859,7 @@ func TestCheck(t *testing.T) {
 			"record types are the four declared in wal/record.go",
 		},
 	}
-	pbt.Add(s, &pbt.Spec[Case]{Name: "wal", Gen: gen, Run: run, Static: enumerate, Quick: 400, Thorough: 12000, Shards: 8})
+	pbt.Add(s, &pbt.Spec[Case]{Name: "wal", Gen: gen, Run: run, Static: enumerate, Quick: 256, Thorough: 8000, Shards: 8})
 	s.Extra("static_domain_enumerated_completely", true)
 	s.Extra("truncation_offsets", "every offset 0..size for cut segments <= ExhLimit bytes (label cuts:exhaustive), structural+drawn otherwise (label cuts:sampled)")
 	s.Main(t)
